@@ -135,6 +135,11 @@ func TestC06(t *testing.T) {
 		t.Fatal(err)
 	}
 	msgs := pickMsgs(vh.Sub(seed, "c06-msgs"), all, 25)
+	for _, mi := range all { // the largest messages: signed frames of the maximal size (280 bytes)
+		if mi.Layout.SizeExt == 255 {
+			msgs = append(msgs, mi)
+		}
+	}
 	genv, err := newGateEnv(msgs)
 	if err != nil {
 		t.Fatal(err)
@@ -229,7 +234,7 @@ func TestC06(t *testing.T) {
 				for k := 0; k < nRandTamper/nTamperFrames+1; k++ {
 					d := append([]byte(nil), vw...)
 					class := ""
-					switch r.Intn(9) {
+					switch r.Intn(10) {
 					case 0:
 						class = "subst"
 						d[r.Intn(len(d))] = r.Byte()
@@ -279,6 +284,16 @@ func TestC06(t *testing.T) {
 						d = ref.Serialize(&u)
 						// first the genuine victim, then the altered copy with the same signature block
 						d = append(append([]byte(nil), vw...), d...)
+					case 9:
+						class = "checksum-wrong-resigned"
+						// only meaningful with a dialect id: checksum flipped, then signed again with the right key
+						u := *victim
+						u.Checksum ^= 0x0100
+						u.Signature = ref.SignatureOfWire(keyRaw, ref.Serialize(&u))
+						if env.genv == nil || env.genv.layouts[u.MsgID] == nil {
+							continue
+						}
+						d = ref.Serialize(&u)
 					case 8:
 						class = "sig-zero"
 						for i := len(d) - 6; i < len(d); i++ {
@@ -430,8 +445,8 @@ func TestC06(t *testing.T) {
 		}
 	}
 
-	// node with InKey: only authenticated frames surface as frame events
-	{
+	// node with InKey: only authenticated frames surface as frame events (whatever version the node itself sends)
+	for _, outVer := range []gomavlib.Version{gomavlib.V2, gomavlib.V1} {
 		keyRaw := keys[0]
 		var mlist []message.Message
 		for _, mi := range glist {
@@ -441,7 +456,7 @@ func TestC06(t *testing.T) {
 		node := &gomavlib.Node{
 			Endpoints:        []gomavlib.EndpointConf{gomavlib.EndpointCustom{ReadWriteCloser: tr}},
 			Dialect:          &dialect.Dialect{Version: 3, Messages: mlist},
-			OutVersion:       gomavlib.V2,
+			OutVersion:       outVer,
 			OutSystemID:      12,
 			InKey:            frame.NewV2Key(keyRaw),
 			HeartbeatDisable: true,
